@@ -170,8 +170,12 @@ pub fn check_state(cx: &mut CaseCx, s: &pp::Server, path: &[u8], c: &Ctx, deep: 
 }
 
 pub fn setup(cx: &mut CaseCx, sub: u64) -> Option<Ctx> {
+  setup_with(cx, sub, (0..=255u8).collect())
+}
+/// `registered`: the tags in the server's public key (punctures of unregistered tags must prune the key just the same)
+pub fn setup_with(cx: &mut CaseCx, sub: u64, registered: Vec<u8>) -> Option<Ctx> {
   cx.entropy(sub);
-  let s = pp::Server::new((0..=255u8).collect()).ok()?;
+  let s = pp::Server::new(registered).ok()?;
   let baseline = eval_all(s.verif_pprf());
   let seeds = export_bytes(&s).ok().and_then(|b| parse_export(&b)).and_then(|e| all_seeds(&e, &baseline));
   if seeds.is_none() {
@@ -185,7 +189,8 @@ pub fn setup(cx: &mut CaseCx, sub: u64) -> Option<Ctx> {
 
 fn run_subsets(cx: &mut CaseCx, case: &Value) {
   let (dname, dom) = domains().into_iter().nth(case["domain"].as_u64().unwrap() as usize).unwrap();
-  let c = match setup(cx, 1) {
+  let few = case["registered"].as_str() == Some("few");
+  let c = match if few { setup_with(cx, 1, vec![dom[0], dom[dom.len() - 1], 77]) } else { setup(cx, 1) } {
     Some(c) => c,
     None => return,
   };
@@ -238,7 +243,7 @@ fn run_subsets(cx: &mut CaseCx, case: &Value) {
   cx.count("transitions", stats.transitions);
   cx.count("merges", stats.merges);
   // trace validation on a fresh server keyed by the same entropy
-  if let Some(c2) = setup(&mut cx.scratch(), 1) {
+  if let Some(c2) = if few { setup_with(&mut cx.scratch(), 1, vec![dom2[0], dom2[dom2.len() - 1], 77]) } else { setup(&mut cx.scratch(), 1) } {
     for path in last.iter().take(8) {
       let mut s = c2.initial.clone();
       for &x in path {
@@ -304,8 +309,13 @@ pub fn spec() -> PropSpec {
     checks: vec![
       Check {
         name: "subsets-bfs",
-        rule: "explicit-state BFS over real Servers (all 256 tags registered): transition = Server::puncture(tag) for a tag of the domain; digest = punctured set with merge check on the exported state; invariant in every state: (hook) no retained node is an ancestor-or-self of a punctured leaf and every unpunctured leaf is covered; (export) same on the independently parsed key-sync export, export == retained; no seed of any node on a punctured path occurs at any offset of the export; import into a fresh server and into a follower holding the earlier state: importer refuses exactly the punctured inputs, equal values, equal key material",
-        gen: |tier| if tier.thorough() { (0..8).map(|d| json!({"domain": d})).collect() } else { (4..8).map(|d| json!({"domain": d})).collect() },
+        rule: "explicit-state BFS over real Servers (all 256 tags registered; and again with only 3 tags registered, so that punctured tags are mostly unregistered): transition = Server::puncture(tag) for a tag of the domain; digest = punctured set with merge check on the exported state; invariant in every state: (hook) no retained node is an ancestor-or-self of a punctured leaf and every unpunctured leaf is covered; (export) same on the independently parsed key-sync export, export == retained; no seed of any node on a punctured path occurs at any offset of the export; import into a fresh server and into a follower holding the earlier state: importer refuses exactly the punctured inputs, equal values, equal key material",
+        gen: |tier| {
+          let mut v: Vec<Value> = if tier.thorough() { (0..8).map(|d| json!({"domain": d})).collect() } else { (4..8).map(|d| json!({"domain": d})).collect() };
+          // the same exploration on servers that register only 3 tags: most punctured tags are unregistered
+          v.extend((4..8).map(|d| json!({"domain": d, "registered": "few"})));
+          v
+        },
         run: run_subsets,
         min_counts: &[("states", 1000), ("exports_parsed", 1000), ("imports_checked", 500), ("seed_scans", 1000), ("traces_validated", 4)],
       },
